@@ -249,6 +249,13 @@ def run_grid(ctx, codes, case_base, full=True, rng=None, max_outlets=None):
             isets.append(tuple(int(v) for v in rng.choice(others, size=min(2, len(others)),
                                                           replace=False)) if others
                          else ())
+            if len(full_area) >= 4:
+                # larger inlet sets, on and off the catchment
+                k = int(rng.integers(3, min(7, len(full_area)) + 1))
+                isets.append(tuple(int(v) for v in rng.choice(full_area, size=min(k, len(full_area)),
+                                                              replace=False)))
+                isets.append(tuple(int(v) for v in rng.choice(others, size=min(k, len(others)),
+                                                              replace=False)))
         else:
             isets = [()] + [(a,) for a in others] + \
                 list(itertools.combinations(others, 2))
